@@ -13,6 +13,7 @@ pub mod c09;
 pub mod c10;
 pub mod c11;
 pub mod c12;
+pub mod c13;
 pub mod c14;
 pub mod c15;
 pub mod c16;
@@ -42,6 +43,7 @@ pub fn all() -> Vec<PropMeta> {
         PropMeta { id: "C10", rule: c10::RULE, assumptions: c10::ASSUMPTIONS, subs: c10::subs },
         PropMeta { id: "C11", rule: c11::RULE, assumptions: c11::ASSUMPTIONS, subs: c11::subs },
         PropMeta { id: "C12", rule: c12::RULE, assumptions: c12::ASSUMPTIONS, subs: c12::subs },
+        PropMeta { id: "C13", rule: c13::RULE, assumptions: c13::ASSUMPTIONS, subs: c13::subs },
         PropMeta { id: "C14", rule: c14::RULE, assumptions: c14::ASSUMPTIONS, subs: c14::subs },
         PropMeta { id: "C15", rule: c15::RULE, assumptions: c15::ASSUMPTIONS, subs: c15::subs },
         PropMeta { id: "C16", rule: c16::RULE, assumptions: c16::ASSUMPTIONS, subs: c16::subs },
